@@ -88,6 +88,7 @@ pub(crate) struct Header {
     pub map_crc: u32,
     pub kind: DemoKind,
     #[br(assert(length >= 0))]
+    #[bw(assert(*length >= 0))]
     pub length: i32,
     pub timestamp: CappedString<20>,
 }
